@@ -439,7 +439,9 @@ def run_prog_case(spec, tier, mg):
         gs = {"name": "%s#%d" % (spec["name"], k), "leaves": [["x", list(SH["x"])], ["y", list(SH["y"])], ["z", list(SH["z"])]],
               "carrs": [["c", list(SH["c"])]], "setup": setup, "body": body, "seed": "none", "pre_grads": pre}
         # tie regions of maximum/max carry no claim in C01 (C02 checks the conventions): not explored
-        r = gradcase.run(gs, tier, PROP, mg, max_paths=600, max_seconds=120, timeout_ms=8000, skip_ties=True)
+        # (thorough shapes: a few quotient programs need ~5 s of solver time per path; the per-program budget must outlast them, a
+        # program that runs out of budget is reported as inconclusive, never as passed)
+        r = gradcase.run(gs, tier, PROP, mg, max_paths=600, max_seconds=120 if tier == "quick" else 900, timeout_ms=8000, skip_ties=True)
         res["ties_skipped"] = res.get("ties_skipped", 0) + r.get("ties_skipped", 0)
         res["programs"] += 1
         for key in ("paths", "boundary_paths", "exc_paths", "unsat", "sat", "unknown"):
